@@ -13,6 +13,7 @@
 #ifdef LOG_EC_COMMIT_SECKEY
 unsigned int g_cs_n; int g_cs_ret; secp256k1_scalar g_cs_in, g_cs_out; secp256k1_ge g_cs_p; uint32_t g_cs_s0, g_cs_s7; uint64_t g_cs_bytes;
 const unsigned char *g_cs_data; size_t g_cs_size; const secp256k1_hash_ctx *g_cs_hctx; const secp256k1_sha256 *g_cs_sha;
+#define EC_COMMIT_SECKEY_GHOST g_cs_n, g_cs_ret, g_cs_in, g_cs_out, g_cs_p, g_cs_s0, g_cs_s7, g_cs_bytes, g_cs_data, g_cs_size, g_cs_hctx, g_cs_sha
 static int secp256k1_ec_commit_seckey(const secp256k1_hash_ctx *hash_ctx, secp256k1_scalar* seckey, secp256k1_ge* pubp, secp256k1_sha256* sha, const unsigned char *data, size_t data_size)
 __CPROVER_requires(hash_ctx != NULL && __CPROVER_rw_ok(seckey, sizeof(*seckey)) && scalar_ok(seckey) && __CPROVER_rw_ok(pubp, sizeof(*pubp)) && ge_ok(pubp))
 __CPROVER_requires(__CPROVER_rw_ok(sha, sizeof(*sha)) && __CPROVER_r_ok(data, data_size))
